@@ -73,7 +73,14 @@ func init() {
 		}
 		n := int64(ex.concretize(ln))
 		state := foldBytes(ex, mkConst(64, 0x9E3779B185EBCA87), p, n)
-		return ex.st.App("uf_xxfin", 64, state, c64(n))
+		h := ex.st.App("uf_xxfin", 64, state, c64(n))
+		if k, ok := ex.harness.Bounds["xxhash_values"]; ok && k > 0 {
+			// harness bound: the hash takes one of k small values (1..k), which
+			// keeps every collision / probe pattern among few slots but bounds
+			// the number of placements explored
+			ex.assume(ex.st.And(ex.st.Ule(one64, h), ex.st.Ule(h, c64(int64(k)))))
+		}
+		return h
 	}
 	reg(sum, "github.com/cespare/xxhash.Sum64", "github.com/cespare/xxhash.Sum64String")
 }
